@@ -2,15 +2,18 @@
    the generic OCaml driver calls). Extract.v only extracts these definitions; Properties.v
    states the main theorem over them. No proofs in this file.
    input  : mode qos cfs prev ratio n  then n records (rcf rc lcf lc rmf rm lmf lm)
-            then optionally amode and, for amode 2 / 3, n records (present rcf rc lcf lc rmf rm lmf lm)
+            then optionally amode and, for amode 2 / 3 / 4, n records (present rcf rc lcf lc rmf rm lmf lm)
             (mode = which request builder the harness used: 0 runtime proxy, 1 NRI, else reconciler;
              prev, ratio = annotation codes of two successive node-meta rule updates;
              amode = how the pod reached the store (View.stored): 0 / absent = admitted by the
              webhook, 1 = webhook bypassed and no annotation, 2 = webhook bypassed and the foreign
              extended-resource-spec annotation given by the second record list, 3 = created with
-             that foreign annotation and admitted by the webhook)
-   observable: 6 integers for the pod, then 6 per container in spec order:
-            sharesSet shares quotaSet quota memSet mem *)
+             that foreign annotation and admitted by the webhook, 4 = admitted at creation, the
+             annotation replaced later by an update (not re-mutated), 5 = admitted with the
+             DisableExtendedResourceSpec gate on)
+            then optionally ni and ni records (rcf rc lcf lc rmf rm lmf lm): the init containers
+   observable: 6 integers for the pod, then 6 per container in spec order, then 6 per init
+            container: sharesSet shares quotaSet quota memSet mem *)
 From Coq Require Import List ZArith Bool.
 From Verif Require Import Lib.Wire C14.Model C14.View C14.Spec C14.Rule.
 Import ListNotations.
@@ -57,6 +60,21 @@ Definition decode_view (inp : list Z) : bool * spod :=
   | _ => (false, [])
   end.
 
+(* spec.initContainers (after the amode block) *)
+Definition decode_inits (inp : list Z) : list ctr :=
+  match inp with
+  | _mode :: _q :: _c :: _prev :: _k :: n :: t =>
+      match skipn (8 * Z.to_nat n) t with
+      | amode :: f =>
+          match (if (2 <=? amode) && (amode <=? 4) then skipn (9 * Z.to_nat n) f else f) with
+          | ni :: r => decode_ctrs (Z.to_nat ni) r
+          | [] => []
+          end
+      | [] => []
+      end
+  | _ => []
+  end.
+
 Definition enc_opt (o : option Z) : list Z := match o with Some v => [1; v] | None => [0; 0] end.
 Definition enc_res (r : res) : list Z := enc_opt (shares r) ++ enc_opt (quota r) ++ enc_opt (mem r).
 Definition enc_obs (o : obs) : list Z := enc_res (fst o) ++ flat_map enc_res (snd o).
@@ -79,7 +97,12 @@ Definition well_sized (n : nat) (l : list Z) : bool := Nat.eqb (length l) (6 * (
 
 Definition run_case (inp : list Z) : list Z :=
   let '(g, _, _) := decode inp in
-  let '(recon, p) := decode_view inp in enc_obs (run_b recon g p).
+  let '(recon, p) := decode_view inp in
+  let o := run_i recon g p (decode_inits inp) in
+  enc_obs (fst (fst o), snd (fst o) ++ snd o).
+
+(* split the decoded responses: the pod, the containers, the init containers *)
+Definition split_obs (n : nat) (o : obs) : obs * list res := ((fst o, firstn n (snd o)), skipn n (snd o)).
 
 (* the property is judged against the ratio the node advertises and the declaration the agent is
    handed (Spec.handed: the pod spec for the reconciler, the annotation for proxy / NRI) *)
@@ -87,7 +110,9 @@ Definition prop_case (inp o : list Z) : Z :=
   let '(_, gw, _) := decode inp in
   let '(recon, p) := decode_view inp in
   let cs := handed recon p in
-  if negb (well_sized (length cs) o) then 9 else prop_code gw cs (dec_obs o).
+  let inits := decode_inits inp in
+  if negb (well_sized (length cs + length inits) o) then 9
+  else let '(oa, ri) := split_obs (length cs) (dec_obs o) in prop_code_i gw cs inits oa ri.
 
 (* non-trivial: a best-effort pod with at least two containers naming a batch resource, CFS
    quota enabled and a finite pod-level quota or memory limit (so sums, clamps and the
@@ -118,10 +143,16 @@ Fixpoint eq_listZ (a b : list Z) : bool :=
   end.
 
 (* known-finding shape of a failing case: 1 = D10 (a container without batch resources is
-   ignored by the pod-level values) AND the implementation's whole observable equals the faithful
-   model's, so that no other deviation can hide behind the recorded shape; every other failure is 0 *)
+   ignored by the pod-level values), 2 = D11 (the main clauses hold, the pod has init containers
+   and only their clauses fail), in both cases AND the implementation's whole observable equals
+   the faithful model's, so that no other deviation can hide behind the recorded shape; every
+   other failure is 0 *)
 Definition finding_sig (inp o : list Z) : Z :=
   let '(_, gw, _) := decode inp in
   let '(recon, p) := decode_view inp in
   let cs := handed recon p in
-  if well_sized (length cs) o && d10_shape gw cs (dec_obs o) && eq_listZ (run_case inp) o then 1 else 0.
+  let inits := decode_inits inp in
+  if well_sized (length cs + length inits) o && eq_listZ (run_case inp) o
+  then let '(oa, ri) := split_obs (length cs) (dec_obs o) in
+       if d10_shape gw cs oa then 1 else if d11_shape gw cs inits oa ri then 2 else 0
+  else 0.
